@@ -3,6 +3,7 @@ package c33
 
 import (
 	"fmt"
+	"os"
 	"sort"
 	"strings"
 	"testing"
@@ -370,4 +371,13 @@ func run(c visCase, o *lib.Obs) error {
 
 func TestC33(t *testing.T) {
 	lib.Check(t, spec, lib.Scale(20000, 2000000), gen, run)
+	if t.Failed() {
+		return
+	}
+	// end-to-end half: the same rules enforced by `plz build`, also on incremental builds (e2e_test.go)
+	n := lib.Scale(8, 400)
+	if v := os.Getenv("VERIF_E2E_CASES"); v != "" {
+		fmt.Sscan(v, &n)
+	}
+	lib.Check(t, spec, n, genE2E, runE2E)
 }
